@@ -13,5 +13,7 @@ cp "$demo" "$S/internal/zzdemo/zz_demo_test.go"
 rc=$?
 rm -rf "$S"
 # every scratch copy has its own path, so the build cache grows with each demo: keep it below 20 GB
-if [ "$(du -s "$(go env GOCACHE)" 2>/dev/null | cut -f1)" -gt 20000000 ] 2>/dev/null; then go clean -cache >/dev/null 2>&1; fi
+# (never while a check is loading /repo: go/packages reads export data from that cache, and a check whose cache
+# vanishes under it fails with "package … without types was imported")
+if [ "$(du -s "$(go env GOCACHE)" 2>/dev/null | cut -f1)" -gt 20000000 ] 2>/dev/null && ! pgrep -f 'bin/cogcheck|thorough.sh' >/dev/null 2>&1; then go clean -cache >/dev/null 2>&1; fi
 exit $rc
